@@ -31,9 +31,60 @@ def leg_seed(seed, check_id, leg_name):
     return int.from_bytes(h[:4], 'big') & 0x7fffffff
 
 
+_LINE_HITS = set()
+_LINE_REPORTED = set()
+_LINE_MON = [False]
+
+
+def _start_line_probe():
+    """Line-level reach probe (sys.monitoring, Python >= 3.12): every dfols source line reports once and is then disabled,
+    so the cost after warm-up is nil.  Pure observation: nothing in the run depends on it."""
+    if _LINE_MON[0] or not hasattr(sys, 'monitoring') or os.environ.get('DSIM_NO_LINE_PROBE') == '1':
+        return
+    _LINE_MON[0] = True
+    try:
+        mon = sys.monitoring
+        tool = mon.PROFILER_ID
+        mon.use_tool_id(tool, 'dsim-reach')
+
+        def on_line(code, line):
+            fn = code.co_filename
+            if '/dfols/' in fn and '/tests/' not in fn:
+                _LINE_HITS.add((fn.rsplit('/', 1)[1], line))
+            return mon.DISABLE
+        mon.register_callback(tool, mon.events.LINE, on_line)
+        mon.set_events(tool, mon.events.LINE)
+    except Exception:
+        pass
+
+
+def executable_lines():
+    """(file, line) of every line that carries code in the dfols modules of the tree under test."""
+    import dis
+    from . import boot
+    out = set()
+    base = os.path.join(boot.dfols_src(), 'dfols')
+    for fn in sorted(os.listdir(base)):
+        if not fn.endswith('.py'):
+            continue
+        try:
+            code = compile(open(os.path.join(base, fn)).read(), fn, 'exec')
+        except Exception:
+            continue
+        stack = [code]
+        while stack:
+            c = stack.pop()
+            for _, ln in dis.findlinestarts(c):
+                if ln is not None:
+                    out.add((fn, ln))
+            stack.extend(k for k in c.co_consts if hasattr(k, 'co_code'))
+    return out
+
+
 def _work(arg):
     check_id, leg_idx, base_seed, index, tier = arg
     global _QUIET_DONE
+    _start_line_probe()
     if not _QUIET_DONE and os.environ.get('DSIM_DEBUG') != '1':
         # LAPACK prints "On entry to DLASCL ..." on NaN input straight to fd 2; keep worker stderr out of the check output
         try:
@@ -60,6 +111,9 @@ def _work(arg):
                 seen[sg] = v
         res['violations'] = list(seen.values())
         res['unit'] = (leg_idx, index)
+        new_lines = _LINE_HITS - _LINE_REPORTED
+        _LINE_REPORTED.update(new_lines)
+        res['new_lines'] = sorted(new_lines)
         return res
     except BaseException as e:  # harness error: reported apart from any property verdict
         return dict(harness_error=''.join(traceback.format_exception(type(e), e, e.__traceback__))[-1500:], unit=(leg_idx, index))
@@ -69,7 +123,7 @@ def _work(arg):
 
 def merge(total, res):
     for k, v in res.items():
-        if k in ('violations', 'samples', 'digests', 'path_sigs', 'unit', 'probe_errors', 'timeout_scenarios'):
+        if k in ('violations', 'samples', 'digests', 'path_sigs', 'unit', 'probe_errors', 'timeout_scenarios', 'new_lines'):
             continue
         if isinstance(v, dict):
             d = total.setdefault(k, {})
@@ -230,6 +284,7 @@ def run_check(check_id, tier, seed, workers=None, max_report=None, quiet=False):
                     pr.terminate()
                 except Exception:
                     pass
+    lines_hit = set()
     # ---- reduce in index order
     for li, leg in enumerate(legs):
         lt = {}
@@ -242,6 +297,7 @@ def run_check(check_id, tier, seed, workers=None, max_report=None, quiet=False):
                 continue
             merge(total, r)
             merge(lt, r)
+            lines_hit.update(tuple(x) for x in r.get('new_lines', []))
             for d in r['digests']:
                 digests.update(d.encode())
             sigs.update(r['path_sigs'])
@@ -403,6 +459,19 @@ def run_check(check_id, tier, seed, workers=None, max_report=None, quiet=False):
         reach[r_] = sum(v for k, v in total.get('exits', {}).items() if k.startswith(r_))
     ev['coverage']['exit_routes_reached'] = reach
     ev['coverage']['exit_routes_not_reached'] = [k for k, v in reach.items() if v == 0]
+    try:
+        allines = executable_lines()
+        per_file = {}
+        for fn, ln in allines:
+            per_file.setdefault(fn, [0, 0])[1] += 1
+        for fn, ln in lines_hit:
+            if (fn, ln) in allines:
+                per_file.setdefault(fn, [0, 0])[0] += 1
+        ev['coverage']['dfols_lines_reached'] = dict(measure='distinct source lines of /repo/dfols/*.py (tests excluded) executed at least once by the simulated runs of this check (sys.monitoring LINE events)',
+                                                      reached=sum(v[0] for v in per_file.values()), executable=sum(v[1] for v in per_file.values()),
+                                                      per_file=dict((k, '%d/%d' % (v[0], v[1])) for k, v in sorted(per_file.items())))
+    except Exception as e:
+        ev['coverage']['dfols_lines_reached'] = dict(error=repr(e))
     if spec.get('evidence_extra'):
         spec['evidence_extra'](ev, total)
     if not ev['coverage']['samples']:
